@@ -8,7 +8,7 @@ and the bytes of the source and of its transitive include closure.  An edited
 source or header is recompiled, an untouched one reused.
 
 Usage: vbuild.py <variant> [--print]
-Variants: plain asan tsan fips fips-tsan fips-asan noparam
+Variants: plain asan tsan fips fips-tsan fips-asan noparam fips-noparam noarch fips-noarch noarch-tsan fips-noarch-tsan
 Output : /verif/.build/<variant>/isa-l_crypto.a , objs.json (name, src, kind, key)
 """
 import sys, os, re, json, hashlib, shlex, subprocess, fcntl, shutil, time
@@ -35,6 +35,12 @@ VARIANTS = {
     # default SAFE_DATA with the parameter checks compiled out (make SAFE_PARAM=n): the two options are independent in make.inc
     "noparam": dict(fips=False, san=None, make=["SAFE_PARAM=n"]),
     "fips-noparam": dict(fips=True, san=None, make=["SAFE_PARAM=n"]),
+    # the portable C configuration (make arch=noarch): *_base.c + *_base_aliases.c, fips/self_tests_generic.c, no AES unit;
+    # these files are not compiled at all in the x86 configuration
+    "noarch": dict(fips=False, san=None, make=["arch=noarch"]),
+    "fips-noarch": dict(fips=True, san=None, make=["arch=noarch"]),
+    "noarch-tsan": dict(fips=False, san="tsan", make=["arch=noarch"]),
+    "fips-noarch-tsan": dict(fips=True, san="tsan", make=["arch=noarch"]),
 }
 
 _INC = re.compile(rb'^[ \t]*[%#][ \t]*include[ \t]+["<]([^">]+)[">]', re.M)
